@@ -11,9 +11,9 @@ placed before it (it "separates" the previous pin from the rest; only possible w
 pin is extreme on that other axis).  The permutation of the word is the relative order of the
 pins (origin dropped).
 
-The language M: words over ULDR of length >= 2 ... (and the two trivial lengths) in which vertical
-and horizontal letters alternate.  A word of M of length n >= 2 stands for the pin word of length
-n - 1 whose first numeral is the quadrant named by the first two letters (RU/UR = 1, LU/UL = 2,
+The language M: all words over ULDR (the empty word and single letters included) in which
+vertical and horizontal letters alternate.  A word of M of length n >= 2 stands for the pin word
+of length n - 1 whose first numeral is the quadrant named by the first two letters (RU/UR = 1, LU/UL = 2,
 LD/DL = 3, RD/DR = 4) followed by the remaining letters.
 """
 from __future__ import annotations
@@ -222,6 +222,30 @@ class Plain:
         for c in word:
             s = self.step(s, c)
         return self.accepts_state(s)
+
+
+def canonical_form(auto):
+    """Numbering-independent description of the reachable part: states renumbered in
+    breadth-first order (letters in the order of DIRS); equal for isomorphic automata."""
+    idx = {auto.initial: 0}
+    order = [auto.initial]
+    rows = []
+    i = 0
+    while i < len(order):
+        s = order[i]
+        i += 1
+        row = [auto.accepts_state(s)]
+        for c in DIRS:
+            t = auto.step(s, c)
+            if t is None:
+                row.append(-1)
+            else:
+                if t not in idx:
+                    idx[t] = len(order)
+                    order.append(t)
+                row.append(idx[t])
+        rows.append(tuple(row))
+    return tuple(rows)
 
 
 def m_reference():
